@@ -400,6 +400,35 @@ func c05Record(in, out string) error {
 		for r := 0; r < q.Rows && r < 8; r++ {
 			events = append(events, Event{"event": "TiffRow", "colors": q.Colors, "enc": toInts(tenc[r*rl : (r+1)*rl]), "dec": toInts(got2[r*rl : (r+1)*rl])})
 		}
+		// 64 KiB of the same kind of data (all zero / all 0xFF / periodic / random compress at very different
+		// ratios) through Flate alone and behind ASCIIHex, no predictor: the whole payload comes back
+		big := make([]byte, 65536)
+		for i := range big {
+			switch q.Mode {
+			case 1:
+				big[i] = 0
+			case 2:
+				big[i] = 0xFF
+			case 3:
+				big[i] = byte((i * 37) % 7)
+			default:
+				big[i] = byte(rnd.Intn(256))
+			}
+		}
+		for _, chain := range []string{"Fl", "AHx+Fl"} {
+			st3 := &core.Stream{Dict: core.Dict{"Filter": core.Name("FlateDecode")}, Data: pdfw.Deflate(big)}
+			if chain == "AHx+Fl" {
+				st3 = &core.Stream{Dict: core.Dict{"Filter": core.Array{core.Name("ASCIIHexDecode"), core.Name("FlateDecode")}, "DecodeParms": core.Array{core.Null{}, core.Null{}}},
+					Data: goHex(pdfw.Deflate(big))}
+			}
+			got3, err := st3.Decode()
+			res.Evals++
+			if err != nil || !bytes.Equal(got3, big) {
+				return fail("bytes", fmt.Sprintf("C05:record-bytes:bulk:%s:mode=%d", chain, q.Mode),
+					fmt.Sprintf("64 KiB of mode-%d data through %s: decoded %d bytes (err %v), %d encoded bytes", q.Mode, chain, len(got3), err, len(st3.Data)),
+					map[string]interface{}{"request": json.RawMessage(raw)})
+			}
+		}
 		// the harness's ASCII encoders against the reference
 		for k := 0; k < 6; k++ {
 			b := make([]byte, rnd.Intn(14))
